@@ -41,7 +41,7 @@ type C05Case struct {
 }
 
 func genC05(t *rapid.T) C05Case {
-	params := ctlsim.Params{Shards: rapid.SampledFrom([]int{0, 1, 3, 3, 5, 5}).Draw(t, "shards")}
+	params := ctlsim.Params{Shards: rapid.SampledFrom([]int{0, 1, 2, 3, 4, 5}).Draw(t, "shards")}
 	avoidParams = params
 	g := newG(t, c05Profile())
 	g.genWorld()
